@@ -21,7 +21,7 @@ SAFE_METHODS = {
     list: {"append", "extend", "copy", "index", "count"},
     str: {"format", "title", "startswith", "endswith", "lower", "upper", "join", "replace", "split"},
     tuple: {"index", "count"},
-    set: {"add", "union", "copy", "difference", "intersection", "issubset"},
+    set: {"add", "union", "copy", "difference", "intersection", "issubset", "update", "discard"},
 }
 def _frame(*a, **k):
     from .framemodel import Frame
@@ -41,7 +41,21 @@ EXTERNAL = {
     "warnings.warn": lambda *a, **k: None,
     "numpy.zeros": lambda n, dtype=float: [0.0] * n,
     "pandas.DataFrame": _frame,
+    "pandas.Series": lambda *a, **k: _series(*a, **k),
 }
+
+
+def _series(data=None, index=None, **kw):
+    from .framemodel import Ser, Unsupported
+
+    if kw:
+        raise Unsupported("Series options")
+    if data is None:
+        return Ser([], [])
+    if isinstance(data, dict):
+        return Ser(list(data.values()), list(data.keys()))
+    data = list(data)
+    return Ser(data, list(index) if index is not None else list(range(len(data))))
 
 
 class FuncRef:
